@@ -343,7 +343,8 @@ def rule_r3(p, res):
             r.violation(f, f.node, "the CSR epilogue of %s has %d statements, its siblings %d" % (name, len(got), len(ref)))
     # the epilogue itself: sort by row, then index pointers cover each row's run
     f, e = eps[ref_name]
-    s = "\n".join(x for _, x in e)
+    from ..astutil import norm_block
+    s = norm_block([st for st, _ in e])
     r.check("rows_arg_sort = rows.argsort()" in s and "columns = columns[rows_arg_sort]" in s and "all_blocks = all_blocks[rows_arg_sort]" in s and "rows = rows[rows_arg_sort]" in s, f, f.node,
             "blocks, columns and rows must be permuted together by the row order")
     r.check("indptr = np.zeros(n_rows + 1)" in s and "indptr[i] = inds[0]" in s and "indptr[i + 1] = inds[-1] + 1" in s and "indptr[i + 1] = indptr[i]" in s, f, f.node,
